@@ -1,4 +1,6 @@
 import ZvbiModel.Pdc.LemmasWin
+import ZvbiModel.Pdc.LemmasFwd
+import ZvbiModel.Pdc.LemmasSec
 /-!
 # C14 - PIL to time conversion picks the right year and instant and leaves TZ alone
 
@@ -8,7 +10,8 @@ Property theorems only.  Vocabulary: `ZvbiModel/Pdc/Spec.lean` (`PilValid`, `Tm.
 `ZvbiModel/Pdc/Calendar.lean`.  libc is the parameter `L : Libc` (failure injection at
 strdup/setenv/time/localtime_r/gmtime_r/mktime, the clock, one `Zone` per TZ value); `cfg : Cfg`
 is generated from the C source (which `_vbi_timegm` is compiled, shape of the three epoch guards).
-All theorems hold for every `cfg`, hence for the code before and after the proposed F9 repair.
+All theorems but one hold for every `cfg`, hence for the code before and after the F9 repair
+(commit 00745a5); `valid_representable_succeeds_current_source` is about the generated `cfg`.
 -/
 namespace Zvbi.Props.C14
 open Zvbi.Pdc
@@ -257,8 +260,8 @@ example : (vbiPilLtoToTime Generated.cfg { fails := fun _ _ => false, now := 0, 
 
 /-! ## F9: the epoch guards -/
 
-/-- The hypothesis the offset arithmetic forces (candidate F9): when the guards compare against the
-epoch (`cfg.epochIn`, `cfg.epochOut`, as in the unrepaired source), a conversion can only succeed
+/-- The hypothesis the offset arithmetic forced (F9, repaired by commit 00745a5): when the guards compare
+against the epoch (`cfg.epochIn`, `cfg.epochOut`, as before the repair), a conversion can only succeed
 if the reference time is at least `-seconds_east` (west of UTC) resp. the result is non-negative
 (east of UTC). -/
 theorem f9_epoch_guards_force (cfg : Cfg) (L : Libc) (w : World) (pil : Nat) (start east t : Int)
@@ -272,7 +275,7 @@ theorem f9_epoch_guards_force (cfg : Cfg) (L : Libc) (w : World) (pil : Nat) (st
   · intro he hgt
     unfold guardOut at hgo; rw [if_pos hgt, if_pos he] at hgo; simp at hgo; omega
 
-/-- F9 on the model: with the guards as they are in the source (`Generated.cfg`), 15 June 12:30 with
+/-- F9 on the model: with the guards as they were before the repair, 15 June 12:30 with
 reference time 100 s after the epoch and offset -3600 is refused, although with the guard written
 against TIME_MIN the very same call yields the representable time -17231400 (15 June 1969 13:30 UTC).
 The same input is replayed on the C code by corpus/C14/f9_epoch_guards.ops. -/
@@ -289,7 +292,10 @@ theorem f9_counterexample :
 by `vbi_pil_lto_validity_window` is either the indefinite window (29 February in a non-leap year),
 or: begin is 00:00 of the PIL's day at the given offset (20:00 of the previous day if the PIL hour is
 below 4), end is 04:00 of the next day, so begin < end and the length is 28 h resp. 32 h
-(EN 300 231 9.3); and if the PIL itself converts, the converted time lies in [begin, end). -/
+(EN 300 231 9.3); and if the PIL itself converts, the converted time lies in [begin, end).
+Explicit exception `t0 ≠ -1`: (time_t) -1 is the error value of the documented interface, so a day whose
+00:00 is exactly one second before the epoch (possible only when seconds_east = 1 mod 60) gets no window:
+`window_minus_one_refused`. -/
 theorem window_contains_and_ordered (cfg : Cfg) (L : Libc) (w : World) (pil : Nat) (start east b e : Int)
     (hutc : UtcIsCalendar cfg L) (hcl : classifyPil pil = .date)
     (hyear : 1 ≤ (tmFromSecs (refTime L start + east)).year + 1900 ∧ (tmFromSecs (refTime L start + east)).year + 1901 ≤ INT_MAX)
@@ -299,10 +305,11 @@ theorem window_contains_and_ordered (cfg : Cfg) (L : Libc) (w : World) (pil : Na
       -- t0 = 00:00 of the PIL's day, viewed at the offset
       (tmFromSecs (t0 + east)).mon + 1 = pilMonth pil ∧ (tmFromSecs (t0 + east)).mday = pilDay pil
       ∧ (tmFromSecs (t0 + east)).hour = 0 ∧ (tmFromSecs (t0 + east)).min = 0 ∧ (tmFromSecs (t0 + east)).sec = 0
+      ∧ t0 ≠ -1
       ∧ b = t0 - (if pilHour pil < 4 then 4 * 60 * 60 else 0) ∧ e = t0 + 28 * 60 * 60
       ∧ b < e ∧ (e - b = 28 * 60 * 60 ∨ e - b = 32 * 60 * 60)
       ∧ (∀ T, (validPilLtoToTime cfg L w pil start east).1 = .ok T → PilValid pil → b ≤ T ∧ T < e)) := by
-  rcases lto_window_shape cfg L w pil start east b e hcl h with ⟨_, hb, he⟩ | ⟨t0, hok, hb, he, _, _⟩
+  rcases lto_window_shape cfg L w pil start east b e hcl h with ⟨_, hb, he⟩ | ⟨t0, hok, hb, he, _, _, hne⟩
   · exact Or.inl ⟨hb, he⟩
   · right
     obtain ⟨fm, fd, fh, fmi⟩ := pil_mask_fields pil
@@ -310,7 +317,7 @@ theorem window_contains_and_ordered (cfg : Cfg) (L : Libc) (w : World) (pil : Na
     obtain ⟨tm1, c1, c2, c3, _⟩ := lto_core cfg L w _ start east t0 hutc hpv hyear hok
     obtain ⟨g1, g2, g3, g4, g5⟩ := c3
     rw [fm] at g1; rw [fd] at g2; rw [fh] at g3; rw [fmi] at g4
-    refine ⟨t0, g1, g2, by simpa using g3, by simpa using g4, g5, hb, he, ?_, ?_, ?_⟩
+    refine ⟨t0, g1, g2, by simpa using g3, by simpa using g4, g5, hne, hb, he, ?_, ?_, ?_⟩
     · rw [hb, he]; split <;> omega
     · rw [hb, he]; split
       · right; omega
@@ -335,6 +342,25 @@ theorem window_contains_and_ordered (cfg : Cfg) (L : Libc) (w : World) (pil : Na
 example : (vbiPilLtoValidityWindow Generated.cfg { fails := fun _ _ => false, now := 0, zoneOf := fun _ => utcZone }
     { env := none, libc := none, heap := 0, restoreFailed := false, calls := fun _ => 0 }
     (mkPil 6 15 12 30) 1000000000 3600).1 = some (992559600, 992660400) := by decide
+
+/-- The sentinel exception, stated: if 00:00 of the PIL's day converts to exactly (time_t) -1, the offset
+window function returns FALSE (the C code cannot tell the value from the error return). -/
+theorem window_minus_one_refused (cfg : Cfg) (L : Libc) (w : World) (pil : Nat) (start east : Int)
+    (hcl : classifyPil pil = .date)
+    (h : (validPilLtoToTime cfg L w (pil &&& mkPil 15 31 0 0) start east).1 = .ok (-1)) :
+    (vbiPilLtoValidityWindow cfg L w pil start east).1 = none := by
+  unfold vbiPilLtoValidityWindow
+  rw [hcl]
+  unfold validPilLtoValidityWindow
+  dsimp only
+  split
+  · rename_i heq; rw [heq] at h; cases h
+  · rfl
+  · rename_i t heq; rw [heq] at h; cases h; rfl
+
+example : (vbiPilLtoValidityWindow Generated.cfg { fails := fun _ _ => false, now := 0, zoneOf := fun _ => utcZone }
+    { env := none, libc := none, heap := 0, restoreFailed := false, calls := fun _ => 0 }
+    (mkPil 1 1 4 9) 86400 1).1 = none := by decide
 
 /-- Zone path (`vbi_pil_validity_window` with a tz other than "UTC") in a zone with a fixed offset: a
 date window is the indefinite window or is ordered and exactly 28 h (32 h for PIL hours 0-3) long.
@@ -364,33 +390,102 @@ theorem window_classes (cfg : Cfg) (L : Libc) (w : World) (pil : Nat) (start eas
 example : classifyPil PIL_TIMER_CONTROL = .indefinite ∧ classifyPil (mkPil 0 1 1 1) = .unallocated
     ∧ classifyPil PIL_NSPV = .nspv ∧ classifyPil (mkPil 2 30 0 0) = .indefinite ∧ classifyPil (mkPil 2 29 0 0) = .date := by decide
 
-/-! ## open statements (NOT proved; kept visible at full strength) -/
+/-! ## completeness and the seconds form of the nearest-year rule -/
 
-/-- OPEN: the nearest-year rule in seconds - a successful offset conversion lies within seven calendar
-months (217 days) of the reference time.  Needs month-start monotonicity of `daysFromCivil`; the
-month form (`lto_conversion`, `nearest_year`) is proved. -/
-def nearest_year_seconds_full : Prop :=
-  ∀ (cfg : Cfg) (L : Libc) (w : World) (pil : Nat) (start east : Int), UtcIsCalendar cfg L →
-    1 ≤ (tmFromSecs (refTime L start + east)).year + 1900 → (tmFromSecs (refTime L start + east)).year + 1901 ≤ INT_MAX →
-    (vbiPilLtoToTime cfg L w pil start east).1 ≠ -1 →
-    -(217 * 86400) ≤ (vbiPilLtoToTime cfg L w pil start east).1 - refTime L start
-    ∧ (vbiPilLtoToTime cfg L w pil start east).1 - refTime L start ≤ 217 * 86400
+/-- valid_representable_succeeds: when the guards are written against TIME_MIN (the repaired source)
+and libc does not fail, every valid PIL converts, for every reference time whose year (at the given
+offset) lies in 1 .. 2^31-3 and every `int` offset - all such results are representable, so there is no
+representability hypothesis left and none about the epoch.  The result is exactly the PIL's date
+and time in the year picked by the nearest-year rule, minus the offset; the only refusal is
+29 February in a non-leap year. -/
+theorem valid_representable_succeeds (cfg : Cfg) (L : Libc) (w : World) (pil : Nat) (start east : Int)
+    (hin : cfg.epochIn = false) (hout : cfg.epochOut = false)
+    (hnf : NoFailures L) (hutc : UtcIsCalendar cfg L) (hv : PilValid pil) (href : refTime L start ≠ -1)
+    (he0 : INT_MIN ≤ east) (he1 : east ≤ INT_MAX)
+    (hy0 : 1 ≤ (tmFromSecs (refTime L start + east)).year + 1900)
+    (hy1 : (tmFromSecs (refTime L start + east)).year + 1902 ≤ INT_MAX) :
+    ∃ tm1, tmMonMdayFromPil (tmFromSecs (refTime L start + east)) pil = some tm1 ∧
+      (vbiPilLtoToTime cfg L w pil start east).1 =
+        if pilMonth pil = 2 ∧ pilDay pil = 29 ∧ ¬ isLeap (tm1.year + 1900) then -1
+        else secsFromTm { tm1 with hour := (pilHour pil : Int), min := (pilMinute pil : Int), sec := 0 } - east :=
+  lto_succeeds cfg L w pil start east hin hout hnf hutc hv href he0 he1 hy0 hy1
 
-/-- OPEN: completeness - without libc failures a valid PIL whose inferred date is real and whose
-instant is representable converts to exactly that instant, provided the F9 hypotheses hold when the
-guards are written against the epoch.  (Soundness of every success is proved: `lto_conversion`.) -/
-def valid_representable_succeeds_full : Prop :=
-  ∀ (cfg : Cfg) (L : Libc) (w : World) (pil : Nat) (start east : Int) (tm1 : Tm), UtcIsCalendar cfg L →
-    (∀ s k, L.fails s k = false) → PilValid pil → refTime L start ≠ -1 →
-    1 ≤ (tmFromSecs (refTime L start + east)).year + 1900 → (tmFromSecs (refTime L start + east)).year + 1902 ≤ INT_MAX →
-    -(10 ^ 17) ≤ refTime L start → refTime L start ≤ 10 ^ 17 → INT_MIN < east → east ≤ INT_MAX →
-    (cfg.epochIn = true → east < 0 → -east ≤ refTime L start) →
-    tmMonMdayFromPil (tmFromSecs (refTime L start + east)) pil = some tm1 →
-    (pilMonth pil = 2 → pilDay pil = 29 → isLeap (tm1.year + 1900)) →
-    (cfg.epochOut = true → 0 < east →
-      east ≤ secsFromTm { tm1 with hour := (pilHour pil : Int), min := (pilMinute pil : Int), sec := 0 }) →
-    secsFromTm { tm1 with hour := (pilHour pil : Int), min := (pilMinute pil : Int), sec := 0 } ≠ -1 →
-    (vbiPilLtoToTime cfg L w pil start east).1
-      = secsFromTm { tm1 with hour := (pilHour pil : Int), min := (pilMinute pil : Int), sec := 0 } - east
+/-- The same for the source as it is now: `Generated.cfg` (regenerated from src/pdc.c on every run) has
+both guards against TIME_MIN.  This proof breaks if an epoch guard comes back. -/
+theorem valid_representable_succeeds_current_source (L : Libc) (w : World) (pil : Nat) (start east : Int)
+    (hnf : NoFailures L) (hutc : UtcIsCalendar Generated.cfg L) (hv : PilValid pil) (href : refTime L start ≠ -1)
+    (he0 : INT_MIN ≤ east) (he1 : east ≤ INT_MAX)
+    (hy0 : 1 ≤ (tmFromSecs (refTime L start + east)).year + 1900)
+    (hy1 : (tmFromSecs (refTime L start + east)).year + 1902 ≤ INT_MAX) :
+    ∃ tm1, tmMonMdayFromPil (tmFromSecs (refTime L start + east)) pil = some tm1 ∧
+      (vbiPilLtoToTime Generated.cfg L w pil start east).1 =
+        if pilMonth pil = 2 ∧ pilDay pil = 29 ∧ ¬ isLeap (tm1.year + 1900) then -1
+        else secsFromTm { tm1 with hour := (pilHour pil : Int), min := (pilMinute pil : Int), sec := 0 } - east :=
+  lto_succeeds Generated.cfg L w pil start east rfl rfl hnf hutc hv href he0 he1 hy0 hy1
+
+/-- the input F9 used to refuse now converts (same call as `f9_counterexample`, current source) -/
+example : (vbiPilLtoToTime Generated.cfg { fails := fun _ _ => false, now := 0, zoneOf := fun _ => utcZone }
+    { env := none, libc := none, heap := 0, restoreFailed := false, calls := fun _ => 0 }
+    (mkPil 6 15 12 30) 100 (-3600)).1 = -17231400 := by decide
+
+/-- nearest_year_seconds: a successful offset conversion lies strictly within 217 days (seven calendar
+months of at most 31 days) of the reference time. -/
+theorem nearest_year_seconds (cfg : Cfg) (L : Libc) (w : World) (pil : Nat) (start east : Int)
+    (hutc : UtcIsCalendar cfg L)
+    (hyear : 1 ≤ (tmFromSecs (refTime L start + east)).year + 1900 ∧ (tmFromSecs (refTime L start + east)).year + 1901 ≤ INT_MAX)
+    (hr : (vbiPilLtoToTime cfg L w pil start east).1 ≠ -1) :
+    -(217 * 86400) < (vbiPilLtoToTime cfg L w pil start east).1 - refTime L start
+    ∧ (vbiPilLtoToTime cfg L w pil start east).1 - refTime L start < 217 * 86400 := by
+  obtain ⟨_, _, c4, c5, _⟩ := lto_conversion cfg L w pil start east hutc hyear hr
+  obtain ⟨sa, va⟩ := secsFromTm_tmFromSecs (refTime L start + east)
+  obtain ⟨sb, vb⟩ := secsFromTm_tmFromSecs ((vbiPilLtoToTime cfg L w pil start east).1 + east)
+  have := seconds_bound _ _ va vb c4 c5
+  rw [sa, sb] at this
+  omega
+
+/-- The same bound for `vbi_pil_to_time` in a zone with a fixed offset. -/
+theorem nearest_year_seconds_fixed_zone (cfg : Cfg) (L : Libc) (w : World) (pil : Nat) (start east : Int) (tz : Option String)
+    (hc : w.Consistent) (htz : tz ≠ some "UTC") (hz : L.zoneOf (effectiveTz w tz) = fixedZone east)
+    (hyear : 1 ≤ (tmFromSecs (refTime L start + east)).year + 1900 ∧ (tmFromSecs (refTime L start + east)).year + 1901 ≤ INT_MAX)
+    (hr : (vbiPilToTime cfg L w pil start tz).1 ≠ -1) :
+    -(217 * 86400) < (vbiPilToTime cfg L w pil start tz).1 - refTime L start
+    ∧ (vbiPilToTime cfg L w pil start tz).1 - refTime L start < 217 * 86400 := by
+  obtain ⟨_, c4, c5, _⟩ := fixed_zone_conversion cfg L w pil start east tz hc htz hz hyear hr
+  obtain ⟨sa, va⟩ := secsFromTm_tmFromSecs (refTime L start + east)
+  obtain ⟨sb, vb⟩ := secsFromTm_tmFromSecs ((vbiPilToTime cfg L w pil start tz).1 + east)
+  have := seconds_bound _ _ va vb c4 c5
+  rw [sa, sb] at this
+  omega
+
+/-! ## zones with daylight-saving time -/
+
+/-- fields_preserved for a named zone with DST, the gap/overlap rule explicit.  The zone is described by
+its UTC offset `off t` at every instant and glibc's mktime behaviour for `tm_isdst = -1`
+(`Zone.FollowsOffsets`, validated against libc on every run).  A successful `vbi_pil_to_time` has a
+valid civil time `tmP` showing the PIL in the year picked by the nearest-year rule, and the result,
+viewed in the zone, (a) shows exactly `tmP` whenever that local time exists in the zone (once, or
+twice in an overlap - then either instant), and (b) in every case shows `tmP` moved by
+`off result - off t'` for an instant `t'` within two days, i.e. by the DST jump when `tmP` falls into
+a gap and by nothing otherwise. -/
+theorem fields_preserved_dst (cfg : Cfg) (L : Libc) (w : World) (pil : Nat) (start : Int) (tz : Option String)
+    (off : Int → Int) (hc : w.Consistent) (htz : tz ≠ some "UTC")
+    (hz : (L.zoneOf (effectiveTz w tz)).FollowsOffsets off)
+    (hyear : ∀ tms, (L.zoneOf (effectiveTz w tz)).toLocal (refTime L start) = some tms →
+      1 ≤ tms.year + 1900 ∧ tms.year + 1901 ≤ INT_MAX)
+    (hr : (vbiPilToTime cfg L w pil start tz).1 ≠ -1) :
+    ∃ tms tmP tmr, (L.zoneOf (effectiveTz w tz)).toLocal (refTime L start) = some tms
+      ∧ tmP.validCivil ∧ tmP.hasPil pil
+      ∧ -6 ≤ tmP.monthIndex - tms.monthIndex ∧ tmP.monthIndex - tms.monthIndex ≤ 5
+      ∧ (pilMonth pil = 2 → pilDay pil = 29 → isLeap (tmP.year + 1900))
+      ∧ (L.zoneOf (effectiveTz w tz)).toLocal (vbiPilToTime cfg L w pil start tz).1 = some tmr
+      ∧ ((∃ t0, t0 + off t0 = secsFromTm tmP) → tmr.hasPil pil ∧ tmr.sameCivil tmP)
+      ∧ (∃ t', (vbiPilToTime cfg L w pil start tz).1 - 172800 ≤ t' ∧ t' ≤ (vbiPilToTime cfg L w pil start tz).1 + 172800
+          ∧ tmr.sameCivil (tmFromSecs (secsFromTm tmP + (off (vbiPilToTime cfg L w pil start tz).1 - off t')))) := by
+  obtain ⟨tms, tmP, tmr, h0, v1, v2, v3, v4, v5, h6, h7, h8⟩ := pil_to_time_dst cfg L w pil start tz off hc htz hz hyear hr
+  exact ⟨tms, tmP, tmr, h0, v1, v2, v3, v4, v5, h6, fun hex => ⟨(h7 hex).hasPil v2, h7 hex⟩, h8⟩
+
+/-- non-vacuity of `Zone.FollowsOffsets`: every fixed-offset zone is an instance (constant offset) -/
+theorem fixed_zone_follows_offsets (east : Int) : (fixedZone east).FollowsOffsets (fun _ => east) :=
+  fixedZone_followsOffsets east
 
 end Zvbi.Props.C14
